@@ -26,7 +26,8 @@ Definition out_eqb (a b : out) : bool :=
   match a, b with
   | OOk, OOk | OSkip, OSkip | OExc, OExc | OUserinfo, OUserinfo | OInactive, OInactive => true
   | OErr x, OErr y => err_eqb x y
-  | OAuthz c s, OAuthz c' s' => Nat.eqb c c' && strs_eqb s s'
+  | OAuthz c s, OAuthz c' s' =>   (* the response scope goes through a Python set: order-insensitive *)
+      Nat.eqb c c' && subset s s' && subset s' s && Nat.eqb (length s) (length s')
   | OTokens a r i s, OTokens a' r' i' s' =>
       opt_eqb Nat.eqb a a' && opt_eqb Nat.eqb r r' && opt_eqb Nat.eqb i i' && strs_eqb s s'
   | OActive s c k, OActive s' c' k' => strs_eqb s s' && str_eqb c c' && tcls_eqb k k'
